@@ -61,6 +61,46 @@ def seq_scenarios(maxlen):
     return scs
 
 
+def req_frames_scenarios():
+    """A refused call changes nothing - also not the rest of a reply that is being read frame by frame:
+    a send() issued out of turn before / between the recv() calls that read a 3-frame reply."""
+    scs = []
+    for tr in ["tcp", "inproc"]:
+        for pos in range(3):
+            ep = S.endpoint(tr, "c10fr")
+            reads = []
+            for k in range(3):
+                if k == pos:
+                    reads.append({"op": "send", "sock": "req", "mid": "q:x", "size": 24})
+                reads.append({"op": "recv", "sock": "req"})
+            scs.append({"name": "reqframes-%s-at%d" % (tr, pos), "deadline_ms": 20000,
+                        "sockets": [{"name": "req", "type": "REQ", "opts": [S.i32(S.RCVTIMEO, 700), S.i32(S.SNDTIMEO, 700)]}, {"name": "rep", "type": "REP", "opts": []}],
+                        "tasks": [{"name": "echo", "ops": [{"op": "bind", "sock": "rep", "ep": ep, "save": "ep"}, {"op": "barrier", "name": "go", "parties": 2},
+                                                          {"op": "recv_mp", "sock": "rep", "timeout_ms": 2000}, {"op": "send_mp", "sock": "rep", "mid": "r:1", "sizes": [24, 24, 24], "timeout_ms": 700},
+                                                          {"op": "recv_mp", "sock": "rep", "timeout_ms": 3000}, {"op": "send_mp", "sock": "rep", "mid": "r:2", "sizes": [24], "timeout_ms": 700}]},
+                                  {"name": "req", "ops": [{"op": "barrier", "name": "go", "parties": 2}, {"op": "connect", "sock": "req", "ep": "$ep"}, {"op": "sleep", "ms": 150},
+                                                         {"op": "send", "sock": "req", "mid": "q:1", "size": 24}, {"op": "sleep", "ms": 150}] + reads +
+                                                        [{"op": "send", "sock": "req", "mid": "q:2", "size": 24}, {"op": "recv", "sock": "req"}]}]})
+    return scs
+
+
+def check_req_frames(ctx, sc, r0):
+    calls = [x for x in r0["records"] if x.get("ev") == "ret" and x.get("task") == "req" and x.get("op") in ("send", "recv")]
+    rp = {"kind": "recorded-trace", "scenario": sc["name"], "calls": [{k: v for k, v in x.items() if k in ("op", "res", "mid", "more")} for x in calls]}
+    if r0["panics"]:
+        ctx.violation("C10:panic", "panic in %s: %s" % (sc["name"], r0["panics"][0]), rp)
+    refused = [x for x in calls if x["op"] == "send" and x.get("mid") == "q:x"]
+    if not refused or refused[0].get("res") != "err:InvalidState":
+        ctx.violation("C10:fsm:req.send:%s" % ("ok" if refused and refused[0].get("res") == "ok" else "other"),
+                      "%s: a send() while the REQ is waiting for / reading its reply returned %s" % (sc["name"], refused[0].get("res") if refused else "nothing"), rp)
+        return
+    got = [(x.get("mid"), x.get("res")) for x in calls if x["op"] == "recv"]
+    want = [("r:1.1", "ok"), ("r:1.2", "ok"), ("r:1.3", "ok"), ("r:2.1", "ok")]
+    if got != want:
+        ctx.violation("C10:refused-call-changed-state", "%s: a send() refused with InvalidState must change nothing, but the frames of the reply then read with recv() were %s instead of %s" % (
+            sc["name"], got, [m for m, _ in want]), rp)
+
+
 def run(ctx):
     thorough = ctx.tier == "thorough"
     vlib.cargo_build()
@@ -95,6 +135,9 @@ def run(ctx):
                                                      {"op": "recv", "sock": "req", "timeout_ms": 1500}]}]})
     metas = [(s.pop("under_test"), s.pop("seq")) for s in scs]
     res = S.run_scenarios(ctx, scs, "c10", timeout=2400, jobs=6)
+    fscs = req_frames_scenarios()
+    for sc, r0 in zip(fscs, S.run_scenarios(ctx, fscs, "c10fr", timeout=900, jobs=6)):
+        check_req_frames(ctx, sc, r0)
     lines = []
     index = []
     for sc, (ut, seq), r0 in zip(scs, metas, res):
